@@ -228,6 +228,69 @@ Proof.
 Qed.
 
 
+(* what may follow a basic query: the closing parenthesis, && or || *)
+Definition qend (c : N) : Prop := c = 41 \/ c = 38 \/ c = 124.
+Lemma qend_closer c : qend c -> closer c.
+Proof. intros [E|[E|E]]; subst c; unfold closer; repeat split; try reflexivity; discriminate. Qed.
+Lemma qend_32 c : qend c -> c <> 32.
+Proof. intros [E|[E|E]]; subst c; discriminate. Qed.
+
+Lemma ev_rule3_cur_q isteps c t pos : forallb rstep_ok isteps = true -> qend c ->
+  evG (PRef 3) (64 :: render_steps isteps ++ c :: t) pos
+      (POk (c :: t) (pos + 1 + List.length (render_steps isteps)) (inner_tokens pos isteps)).
+Proof.
+  intros Hs Hq. pose proof (qend_closer c Hq) as Hc. pose proof Hc as (Hsym & H46 & H91 & H32 & H92 & H40). unfold inner_tokens. eapply ev_conv.
+  - eapply ev_ref; [reflexivity|].
+    eapply ev_seq_ok; [apply ev_space_stop; discriminate| |reflexivity].
+    eapply ev_seq_ok; [| |reflexivity].
+    + eapply ev_ref; [reflexivity|]. apply ev_alt_r.
+      * eapply ev_ref; [reflexivity|]. apply ev_seq_fail. apply (ev_lit_fail G [36]). reflexivity.
+      * eapply ev_ref; [reflexivity|]. eapply ev_seq_ok; [apply (ev_lit_ok G [64]); apply strip1_ok|apply ev_act|reflexivity].
+    + eapply ev_ref; [reflexivity|].
+      assert (Hd : dot_stop (c :: t)) by (cbn; repeat split; assumption).
+      eapply ev_seq_ok; [apply (ev_steps_star_gen isteps (c :: t) _ Hs Hd (fun p => ev_rule7_closer c t p Hc))| |reflexivity].
+      eapply ev_seq_ok; [apply ev_star_stop; apply ev_rule8_closer; exact Hc| |reflexivity].
+      eapply ev_seq_ok; [apply ev_space_stop; exact H32|apply ev_act|reflexivity].
+  - cbn [List.length app Nat.add]. replace (pos + 0 + 1)%nat with (pos + 1)%nat by lia. rewrite <- ?app_assoc. reflexivity.
+Qed.
+Lemma ev_rule44_q isteps c t pos : forallb rstep_ok isteps = true -> qend c ->
+  evG (PRef 44) (64 :: render_steps isteps ++ c :: t) pos
+      (POk (c :: t) (pos + 1 + List.length (render_steps isteps)) ([TAct 38] ++ inner_tokens pos isteps ++ [TAct 39])).
+Proof.
+  intros Hs Hq. eapply ev_ref; [reflexivity|].
+  eapply ev_seq_ok; [apply ev_act| |reflexivity].
+  eapply ev_seq_ok; [apply (ev_rule3_cur_q isteps c t pos Hs Hq)|apply ev_act|reflexivity].
+Qed.
+Lemma ev_rule43_q isteps c t pos : forallb rstep_ok isteps = true -> qend c ->
+  exists toks, evG (PRef 43) (64 :: render_steps isteps ++ c :: t) pos (POk (c :: t) (pos + 1 + List.length (render_steps isteps)) toks).
+Proof.
+  intros Hs Hq. eexists. eapply ev_ref; [reflexivity|].
+  eapply ev_seq_ok; [apply ev_cap; apply (ev_rule44_q isteps c t pos Hs Hq)|apply ev_act|reflexivity].
+Qed.
+Lemma ev_rule39_exists_q isteps c t pos : forallb rstep_ok isteps = true -> qend c ->
+  evG (PRef 39) (64 :: render_steps isteps ++ c :: t) pos PFail.
+Proof.
+  intros Hs Hq. destruct (ev_rule43_q isteps c t pos Hs Hq) as (toks & E43). pose proof (qend_32 c Hq) as H32.
+  assert (Hlit : forall s, (s = [61; 61] \/ s = [33; 61] \/ s = [60; 61] \/ s = [60] \/ s = [62; 61] \/ s = [62] \/ s = [61; 126]) -> strip_prefix s (c :: t) = None).
+  { intros s Hcase. destruct Hq as [E|[E|E]]; subst c; destruct Hcase as [E|[E|[E|[E|[E|[E|E]]]]]]; subst s; reflexivity. }
+  eapply ev_ref; [reflexivity|].
+  apply ev_alt_r.
+  { eapply ev_seq_fail2.
+    - eapply ev_ref; [reflexivity|]. apply ev_alt_r; [apply ev_seq_fail; apply ev_rule42_at|exact E43].
+    - eapply ev_seq_fail2; [apply ev_space_stop; exact H32|].
+      apply ev_alt_r; apply ev_seq_fail; apply (ev_lit_fail G); apply Hlit; auto 10. }
+  apply ev_alt_r.
+  { eapply ev_seq_fail2.
+    - eapply ev_ref; [reflexivity|]. apply ev_alt_r; [apply ev_seq_fail; apply ev_rule45_at|exact E43].
+    - eapply ev_seq_fail2; [apply ev_space_stop; exact H32|].
+      apply ev_alt_r; [apply ev_seq_fail; apply (ev_lit_fail G); apply Hlit; auto 10|].
+      apply ev_alt_r; [apply ev_seq_fail; apply (ev_lit_fail G); apply Hlit; auto 10|].
+      apply ev_alt_r; apply ev_seq_fail; apply (ev_lit_fail G); apply Hlit; auto 10. }
+  eapply ev_seq_fail2; [exact E43|].
+  eapply ev_seq_fail2; [apply ev_space_stop; exact H32|].
+  apply ev_seq_fail. apply (ev_lit_fail G). apply Hlit. auto 10.
+Qed.
+
 (* ---------- the token replay ---------- *)
 From JP Require Import Frame NoDollar.
 
